@@ -446,7 +446,7 @@ func c20GenConc(r *rng, src c20SrcParams) c20cInput {
 	// every (lock held, shape) pair comes up: a deck of all pairs, shuffled, dealt over the cases
 	for i := 0; i < src.Height-2; i++ {
 		if len(c20cDeck) == 0 {
-			for _, h := range []string{"add", "state", "event", "none"} {
+			for _, h := range []string{"add", "state", "event"} { // "none" (callers released at once, not forced) is accepted in replays only: its outcome depends on timing
 				for _, sh := range shapes {
 					c20cDeck = append(c20cDeck, c20cStep{Hold: h, Calls: append([]c20cCall{}, sh...)})
 				}
